@@ -164,6 +164,12 @@ class Adapter:
     def variant_of_key(self, key, spec, U):
         return self.fresh_record(spec, U)
 
+    def sanitize_batch(self, es, model):
+        return es
+
+    def ambiguous_weighted_batch(self, es):
+        return False
+
     # ---- construction / calls on the real object
     def new_model(self, weighted):
         raise NotImplementedError
@@ -252,6 +258,7 @@ def resolve(ad, aop, model, U):
     """Concrete operation (plain labels), or None when excluded by construction."""
     k = aop["op"]
     c = {"op": k}
+    ad.cur_op = k  # lets an adapter restrict special records (e.g. invalid times) to insertions
     if k == "add_node":
         c["n"] = _node_from(aop["node"], model, U)
         c["meta"] = aop["meta"]
@@ -271,6 +278,9 @@ def resolve(ad, aop, model, U):
         c["ws"] = aop["ws"][: len(c["es"])] if aop["ws"] is not None else None
         if aop.get("short_weights") and c["ws"]:
             c["ws"] = c["ws"][:-1]
+        c["es"] = ad.sanitize_batch(c["es"], model)
+        if c["ws"] is not None and ad.ambiguous_weighted_batch(c["es"]):
+            return None
         c["metas"] = None
         if aop["metas"] is not None:
             c["metas"] = (aop["metas"] + [{} for _ in c["es"]])[: len(c["es"])]
@@ -356,6 +366,8 @@ def apply_model(ad, m, c):
             w = ws[i] if ws is not None else None
             if not m.add_edge(ad.key_of(e), w,
                               dc(c["metas"][i]) if c["metas"] is not None else None):
+                if i == 0:
+                    return False  # fails on its first element: nothing applied
                 raise AssertionError("generator produced a partially failing batch")
         return True
     if k == "remove_edge":
@@ -555,7 +567,8 @@ def check_history(ad, case, ctx):
     for step, aop in enumerate(case["ops"]):
         c = resolve(ad, aop, model, U)
         if c is None:
-            ctx.exclude("keep_edges=True removal that would leave an empty hyperedge")
+            ctx.exclude({"add_edges": "weighted batch whose duplicate test is unspecified"}.get(
+                aop["op"], "keep_edges=True removal that would leave an empty hyperedge"))
             continue
         trace.append(c)
         desc = "step %d %r" % (step, c)
@@ -734,7 +747,7 @@ def op_strategy(draw, weighted, kinds, t_strategy=None, clear=True):
 
 @st.composite
 def histories(draw, max_steps, kinds=None, t_strategy=None, clear=True,
-              universe_kinds=("ints", "strs", "range", "ints")):
+              universe_kinds=("ints", "strs", "range", "ints"), init_t_strategy=None):
     kinds = kinds or KINDS
     weighted = draw(st.booleans())
     universe = draw(S.universes(min_size=3, max_size=8, kinds=universe_kinds))
@@ -742,7 +755,7 @@ def histories(draw, max_steps, kinds=None, t_strategy=None, clear=True,
     init = {"edges": [], "weights": None, "node_meta": None, "edge_meta": None, "hg_meta": None}
     if with_init:
         init = {
-            "edges": draw(st.lists(edge_spec(["fresh"]), max_size=5)),
+            "edges": draw(st.lists(edge_spec(["fresh"], init_t_strategy), max_size=5)),
             "weights": draw(st.one_of(st.none(), st.lists(st.integers(1, 9), min_size=1, max_size=5))),
             "node_meta": draw(st.one_of(st.none(), st.lists(st.tuples(idx, S.metadata()), max_size=3))),
             "edge_meta": draw(st.one_of(st.none(), st.lists(S.metadata(), max_size=5))),
